@@ -348,3 +348,40 @@ def registration_is_unconditional_and_the_table_is_never_replaced(ctx):
                           'the listing and this assignment is lost - that connection was told `active` and never gets an update', f)
     if not n:
         raise AnchorMissing('construction of _subscriptions / _active_connections not found in Dispatcher')
+
+
+@rule('C08.R3e', min_instances=1)
+def disconnect_path_iterates_snapshots(ctx):
+    """remove_connection (and what it calls) runs on the closing connection's own thread WITHOUT the dispatcher lock, while
+    other connections subscribe under the lock: a loop over the shared tables there has to run over a snapshot
+    (list(...) / .copy()) - iterating the live dict raises RuntimeError when a subscribe adds a key, the clean-up then stops
+    half way: the closed connection stays registered for updates and log messages"""
+    m = ctx.m
+    ci = m.cls(D)
+    start = m.method(D, 'remove_connection', inherited=False)
+    todo, seen = [start], {}
+    while todo:
+        f = todo.pop()
+        if f.qualname in seen:
+            continue
+        seen[f.qualname] = f
+        for c in calls_in(f.node):
+            if isinstance(c.func, ast.Attribute) and dotted(c.func.value) == 'self' and c.func.attr in ci.methods:
+                todo.append(ci.methods[c.func.attr])
+    n = 0
+    for f in seen.values():
+        for loop in [x for x in body_walk(f.node) if isinstance(x, (ast.For, ast.comprehension))]:
+            it = loop.iter
+            if not any(isinstance(x, ast.Attribute) and x.attr in ('_subscriptions', '_active_connections', '_connections') and dotted(x.value) == 'self'
+                       for x in ast.walk(it)):
+                continue
+            n += 1
+            ctx.analysed(f)
+            snap = isinstance(it, ast.Call) and ((isinstance(it.func, ast.Name) and it.func.id in ('list', 'tuple', 'set', 'frozenset', 'sorted'))
+                                                 or call_attr(it) == 'copy')
+            ctx.check(snap, f'{f.qualname}:loop over `{src(it)[:60]}` runs over a snapshot', loop if isinstance(loop, ast.For) else it,
+                      'list(...) / copy of the shared table',
+                      f'`for ... in {src(it)}` iterates the live table on the disconnect path (no dispatcher lock): a concurrent activate of another '
+                      'connection adds a key, the loop raises RuntimeError and the rest of the clean-up (log levels off, removal from the active set) is skipped', f)
+    if not n:
+        raise AnchorMissing('no loop over the subscription tables on the disconnect path', violation=f'{D}.reset_connection:discards from every container activate adds to')
